@@ -244,8 +244,64 @@ fn sink_scripts(rng: &mut Rng, len: usize) -> Vec<(String, Vec<WStep>, WStep)> {
     v
 }
 
+/// which wire-numbered enum variants and which properties the run has pushed through the encoder
+#[derive(Default)]
+pub struct Coverage {
+    pub codes: std::collections::BTreeSet<(String, String, String)>,
+    pub props: std::collections::BTreeSet<(String, String)>,
+}
+impl Coverage {
+    fn note_props(&mut self, set: &str, pr: &J) {
+        if let Some(o) = pr.as_object() {
+            for (k, v) in o {
+                if v.as_array().map(|a| !a.is_empty()).unwrap_or(false) {
+                    self.props.insert((set.to_string(), k.clone()));
+                }
+            }
+        }
+    }
+    pub fn note(&mut self, fam: &str, p: &J) {
+        let t = p["t"].as_str().unwrap_or("").to_string();
+        if let Some(c) = p.get("code").and_then(|c| c.as_str()) {
+            self.codes.insert((fam.to_string(), t.clone(), c.to_string()));
+        }
+        if let Some(cs) = p.get("codes").and_then(|c| c.as_array()) {
+            for c in cs {
+                self.codes.insert((fam.to_string(), t.clone(), c.as_str().unwrap_or("").to_string()));
+            }
+        }
+        if let Some(pv) = p.get("protocol").and_then(|c| c.as_str()) {
+            self.codes.insert((fam.to_string(), "Protocol".to_string(), pv.to_string()));
+        }
+        if let Some(ts) = p.get("topics").and_then(|c| c.as_array()) {
+            for tp in ts {
+                if let Some(rh) = tp.get("rh").and_then(|c| c.as_str()) {
+                    self.codes.insert((fam.to_string(), "RetainHandling".to_string(), rh.to_string()));
+                }
+            }
+        }
+        if fam == "v5" {
+            if let Some(pr) = p.get("props") {
+                self.note_props(&t, pr);
+            }
+            if let Some(w) = p.get("will").and_then(|w| w.get(0)) {
+                self.note_props("Will", &w["props"]);
+            }
+        }
+    }
+    pub fn event(&self) -> J {
+        json!({"ev": "Coverage",
+               "codes": self.codes.iter().map(|(a, b, c)| json!([a, b, c])).collect::<Vec<_>>(),
+               "props": self.props.iter().map(|(a, b)| json!([a, b])).collect::<Vec<_>>()})
+    }
+}
+thread_local! {
+    pub static COVERAGE: std::cell::RefCell<Coverage> = std::cell::RefCell::new(Coverage::default());
+}
+
 fn enc_event<F: Fam>(out: &mut Out, rng: &mut Rng, p: &F::Packet) {
     let (e, bytes) = enc::<F>(p);
+    COVERAGE.with(|c| c.borrow_mut().note(F::NAME, &F::to_json(p)));
     let mut ev = json!({"ev": "Enc", "fam": F::NAME, "packet": F::to_json(p), "sync": e});
     if let Some(b) = &bytes {
         // the container returned by the blocking encoder, a second invocation, and a clone of the packet
@@ -295,6 +351,8 @@ pub fn record_enc(out: &mut Out, tier: &str, seed: u64) {
         let p = V5::gen(&mut rng, &mut b, types5[i % types5.len()]);
         enc_event::<V5>(out, &mut rng, &p);
     }
+    let ev = COVERAGE.with(|c| c.borrow().event());
+    out.ev(ev);
 }
 
 fn pid1() -> mqtt_proto::Pid {
